@@ -227,8 +227,11 @@ package loadbalance
 //@       0 <= leastActiveIndexes[k] && leastActiveIndexes[k] < n && lb.actives[leastActiveIndexes[k]] == leastActive)
 //@   loop 1 invariant [a_minimal_one_is_collected] exists(j, 0, i, lb.actives[j] == leastActive) ==> len(leastActiveIndexes) >= 1
 //@   loop 2 invariant 0 <= i && i <= count && count == len(leastActiveIndexes) && ghost.held[addr(lb.rwlock)] == 2
+//@   loop 2 invariant [draw_not_yet_used_up] currentWeight >= 0 && index == leastActiveIndexes[0]
 //@   ensures [valid_index] 0 <= result && result < len(lb.URLs)
 //@   ensures [fewest_in_flight] forall(j, 0, len(lb.URLs), lb.actives[result] <= lb.actives[j])
+//@   ensures [the_weighted_draw_lands_on_a_server_with_weight] count > 1 && totalWeight > 0 ==>
+//@       lb.effectiveWeights[result] > 0 || result == leastActiveIndexes[0]
 //@   ensures [lock_released] ghost.held[addr(lb.rwlock)] == 0
 
 //@ func (*WeightedLeastActiveLoadBalance).Handler
